@@ -41,7 +41,7 @@ SIZES = {
     'C10': (3500, 35000, 150, 1700),
     'C11': (3500, 35000, 150, 1700),
     'C12': (6000, 60000, 150, 1700),
-    'C16': (64, 640, 150, 1700),
+    'C16': (48, 480, 150, 1700),
     'C19': (4000, 40000, 150, 1700),
     'C20': (48, 480, 150, 1700),
 }
